@@ -767,6 +767,30 @@ def run(ctx):
     mine = [c for i, c in enumerate(chains) if i % ctx.nshards == ctx.shard % len(chains)]
     for c in (mine if ctx.thorough else mine[:1]):
         run_case(ctx, c, check, 'chain', None, {})
+    if ctx.shard == 0:
+        # big sets (hundreds of members) looked at twice: research -> get_path for every hit, an in-place edit that keeps
+        # the size, research -> get_path again; and a second set of the same size right after the first was dropped
+        iu = common.load('iterutils')
+        for n_members in (300, 600, 1500):
+            big = set(range(n_members))
+            root = {'s': big, 'l': [1, 2, 3]}
+            bad = None
+            for rnd in range(3):
+                hits = iu.research(root, query=lambda p, k, v: type(v) is int)
+                for pth, val in hits:
+                    ctx.stats.monitor_evals += 1
+                    got = common.outcome(lambda: iu.get_path(root, pth))
+                    if got != ('ok', val):
+                        bad = 'round %d: research reports %r at %r, get_path gives %r' % (rnd, val, pth, got)
+                        break
+                if bad:
+                    break
+                big.discard(5 + rnd)
+                big.add(10 ** 6 + rnd)         # same size, other members, other iteration order
+            if bad:
+                ctx.stats.violation('get_path-wrong-object:big-set-edited-in-place', 'a set of %d members inside a dict, %s'
+                                    % (n_members, bad), {'fixed': 'big-set', 'n': n_members})
+            ctx.stats.count('big_set_research_rounds', 3)
     path_chains = [{'kind': 'chain', 'depth': d, 'kinds': k, 'visit': 'paths'} for d, k in
                    ((450, ['wide', 'dict']), (300, ['list', 'wide', 'dict']), (700, ['wide']), (260, ['dict', 'tuple', 'wide']),
                     (1500, ['wide', 'list']), (130, ['wide']), (210, ['dict', 'wide']), (999, ['tuple', 'wide', 'wide']))]
@@ -779,5 +803,7 @@ def run(ctx):
 
 
 def replay(witness):
+    if witness.get('fixed'):
+        return None     # fixed cases are re-run by the check itself (shard 0), not from a witness
     r = check(witness['case'], common.Stats())
     return '%s: %s' % r if r else None
